@@ -185,7 +185,9 @@ func (s *Server) rejectPrivateAndLoopbackIPAction(_ context.Context, in egress.I
 			Action: appctlpb.EgressAction_REJECT,
 		}
 	}
+	s.usersMu.RLock()
 	user, ok := s.config.Users[userName]
+	s.usersMu.RUnlock()
 	if !ok {
 		// User is not registered.
 		// By default, we reject the request.
